@@ -243,3 +243,75 @@ pub fn repeat_n<T: Clone + Send>(item: T, n: usize) -> VecIter<T> {
 pub fn repeatn<T: Clone + Send>(item: T, n: usize) -> VecIter<T> {
     repeat_n(item, n)
 }
+
+// ---- tuples of parallel iterators ("multizip") ------------------------------------------
+
+impl<A, B> IntoParallelIterator for (A, B)
+where
+    A: IntoParallelIterator,
+    A::Iter: IndexedParallelIterator,
+    B: IntoParallelIterator,
+    B::Iter: IndexedParallelIterator,
+{
+    type Iter = Zip<A::Iter, B::Iter>;
+    type Item = (A::Item, B::Item);
+    fn into_par_iter(self) -> Self::Iter {
+        self.0.into_par_iter().zip(self.1)
+    }
+}
+
+impl<A, B, C> IntoParallelIterator for (A, B, C)
+where
+    A: IntoParallelIterator,
+    A::Iter: IndexedParallelIterator,
+    B: IntoParallelIterator,
+    B::Iter: IndexedParallelIterator,
+    C: IntoParallelIterator,
+    C::Iter: IndexedParallelIterator,
+{
+    type Iter = VecIter<(A::Item, B::Item, C::Item)>;
+    type Item = (A::Item, B::Item, C::Item);
+    fn into_par_iter(self) -> Self::Iter {
+        // evaluated under the scheduler, flattened sequentially (order is fixed by the contract)
+        let v: Vec<((A::Item, B::Item), C::Item)> =
+            crate::iter::collect::collect_vec(self.0.into_par_iter().zip(self.1).zip(self.2));
+        VecIter {
+            vec: v.into_iter().map(|((a, b), c)| (a, b, c)).collect(),
+        }
+    }
+}
+
+// ---- par_drain ---------------------------------------------------------------------------
+
+pub trait ParallelDrainRange<Idx = usize> {
+    type Iter: ParallelIterator<Item = Self::Item>;
+    type Item: Send;
+    fn par_drain<R: std::ops::RangeBounds<Idx>>(self, range: R) -> Self::Iter;
+}
+
+impl<'a, T: Send> ParallelDrainRange<usize> for &'a mut Vec<T> {
+    type Iter = VecIter<T>;
+    type Item = T;
+    fn par_drain<R: std::ops::RangeBounds<usize>>(self, range: R) -> VecIter<T> {
+        VecIter {
+            vec: self.drain(range).collect(),
+        }
+    }
+}
+
+pub trait ParallelDrainFull {
+    type Iter: ParallelIterator<Item = Self::Item>;
+    type Item: Send;
+    fn par_drain(self) -> Self::Iter;
+}
+
+impl<'a, T: Send> ParallelDrainFull for &'a mut std::collections::BinaryHeap<T>
+where
+    T: Ord,
+{
+    type Iter = VecIter<T>;
+    type Item = T;
+    fn par_drain(self) -> VecIter<T> {
+        VecIter { vec: self.drain().collect() }
+    }
+}
